@@ -37,7 +37,7 @@ PROG_OPTS = [(["--progress"], "p:t"), (["--no-progress"], "np:t"), (["--progress
 CFG = {
     # a valid value with white space around it is not that value: the same string is refused on the command line
     "threshold": [(None, "u"), ("0", "0.0"), ("30", "30.0"), ("2.5", "2.5"), ("many", "bad"), ("", "bad"), (" 1", "bad"), ("30 ", "bad"),
-                  ("0\n", "bad")],
+                  ("0\n", "bad"), ("0.1", "0.1"), ("1.2", "1.2"), ("0.3", "0.3")],
     "names": [(None, "u"), ("none", "none"), ("hash", "hash"), ("sha1", "hash"), ("full", "full"), ("x", "bad"), ("full ", "bad"),
               ("\tnone", "bad"), ("hash\n", "bad")],
     "jsonVersion": [(None, "u"), ("1", "1"), ("2", "2"), ("3", "3"), ("two", "fail")],
@@ -49,7 +49,8 @@ def repo():
     s = S.Scenario()
     big = s.add({"kind": "blob", "data": b"B" * 12000000})
     t = s.add({"kind": "tree", "entries": [(0o100644, b"big", big)]})
-    c = s.add({"kind": "commit", "tree": t, "parents": []})
+    c0 = s.add({"kind": "commit", "tree": t, "parents": [], "date": 1400000000})
+    c = s.add({"kind": "commit", "tree": t, "parents": [c0]})    # 1 parent / reference 10, path depth 1 / 10: levels of exactly 0.1
     g = s.add({"kind": "tag", "target": c, "name": b"v1"})
     g2 = s.add({"kind": "tag", "target": g, "name": b"v2"})
     s.refs += [(b"refs/heads/main", c), (b"refs/tags/v2", g2)]
@@ -65,7 +66,7 @@ def run(ctx):
                 "random sequences; non-trivial = distinct (config, argv)" % (2 if quick else 3))
     eng = SC.Engine(ctx)
     sc = repo()
-    order = sc.enum_gitlike([len(sc.objects) - 1, 2])
+    order = sc.enum_gitlike([len(sc.objects) - 1, 3])
     cache = {}
     outcomes = {"ok": 0, "err": 0}
 
@@ -191,6 +192,58 @@ def run(ctx):
                                                      {"gitconfig": cfg, "group": g, "extra": extra, "refs": [n.decode() for n in RC.NESTED_REFS]},
                                                      expected=ob[:600].decode("latin1") + eb[:300].decode("latin1"),
                                                      observed=oa[:600].decode("latin1") + ea[:300].decode("latin1")))
+        # real git: a sizer.* value has the effect of its option through EVERY way git offers to supply configuration —
+        # the repository's config file, the global file, `git -c`, and GIT_CONFIG_COUNT/KEY/VALUE in the caller's environment
+        import os, shutil, subprocess
+        d = os.path.join(eng.scratch, "cfgways")
+        small = S.Scenario()
+        sb = small.add({"kind": "blob", "data": b"B" * 1200000})
+        st_ = small.add({"kind": "tree", "entries": [(0o100644, b"big", sb)]})
+        sc0 = small.add({"kind": "commit", "tree": st_, "parents": []})
+        small.refs.append((b"refs/heads/main", small.add({"kind": "commit", "tree": st_, "parents": [sc0], "date": 1500000000})))
+        small.compute()
+        small.materialise(d)
+        sizer_dir = os.path.dirname(ctx["bins"]["sizer"])
+        glob = os.path.join(eng.scratch, "cfgways.global")
+        ways = 0
+        for key, val, opt, common in (("threshold", "0", ["--threshold=0"], ["--no-progress"]), ("threshold", "0.1", ["--threshold=0.1"], ["--no-progress"]),
+                                      ("names", "none", ["--names=none"], ["--no-progress", "-v"]), ("names", "hash", ["--names=hash"], ["--json", "--no-progress"]),
+                                      ("jsonVersion", "2", ["--json-version=2"], ["-j", "--no-progress"]),
+                                      ("progress", "false", ["--no-progress"], ["-v"]), ("progress", "true", ["--progress"], [])):
+            env0 = S.clean_env()
+            env0["PATH"] = sizer_dir + ":" + env0.get("PATH", os.environ["PATH"])
+            ref = subprocess.run([ctx["bins"]["sizer"]] + common + opt, cwd=d, env=env0, stdout=subprocess.PIPE, stderr=subprocess.PIPE)
+            open(glob, "w").write("[sizer]\n\t%s = %s\n" % (key, val))
+            runs = {
+                "repository config file": (lambda: (subprocess.run(["git", "config", "sizer." + key, val], cwd=d, env=env0),
+                                                    subprocess.run([ctx["bins"]["sizer"]] + common, cwd=d, env=env0, stdout=subprocess.PIPE, stderr=subprocess.PIPE),
+                                                    subprocess.run(["git", "config", "--unset-all", "sizer." + key], cwd=d, env=env0))[1]),
+                "GIT_CONFIG_GLOBAL file": (lambda: subprocess.run([ctx["bins"]["sizer"]] + common, cwd=d, env=dict(env0, GIT_CONFIG_GLOBAL=glob),
+                                                                  stdout=subprocess.PIPE, stderr=subprocess.PIPE)),
+                "GIT_CONFIG_COUNT/KEY_0/VALUE_0 in the environment": (lambda: subprocess.run(
+                    [ctx["bins"]["sizer"]] + common, cwd=d, env=dict(env0, GIT_CONFIG_COUNT="1", GIT_CONFIG_KEY_0="sizer." + key, GIT_CONFIG_VALUE_0=val),
+                    stdout=subprocess.PIPE, stderr=subprocess.PIPE)),
+                "GIT_CONFIG_COUNT=2 with an unrelated first entry": (lambda: subprocess.run(
+                    [ctx["bins"]["sizer"]] + common, cwd=d, env=dict(env0, GIT_CONFIG_COUNT="2", GIT_CONFIG_KEY_0="foo.bar", GIT_CONFIG_VALUE_0="x",
+                                                                     GIT_CONFIG_KEY_1="sizer." + key, GIT_CONFIG_VALUE_1=val),
+                    stdout=subprocess.PIPE, stderr=subprocess.PIPE)),
+                "git -c key=value sizer": (lambda: subprocess.run(["git", "-c", "sizer.%s=%s" % (key, val), "sizer"] + common, cwd=d, env=env0,
+                                                                  stdout=subprocess.PIPE, stderr=subprocess.PIPE)),
+            }
+            for way, f in runs.items():
+                p = f()
+                ways += 1
+                res.case(("ways", key, val, way), True)
+                same_progress = (b"Processing" in p.stderr) == (b"Processing" in ref.stderr)
+                if p.returncode != ref.returncode or p.stdout != ref.stdout or not same_progress:
+                    res.violations.append(vlib.Violation(
+                        "sizer.%s=%s supplied through %s does not have the effect of %s" % (key, val, way, " ".join(opt)),
+                        {"key": "sizer." + key, "value": val, "way": way, "argv": common},
+                        expected={"rc": ref.returncode, "stdout": ref.stdout[:300].decode("latin1"), "progress": b"Processing" in ref.stderr},
+                        observed={"rc": p.returncode, "stdout": p.stdout[:300].decode("latin1"), "progress": b"Processing" in p.stderr,
+                                  "stderr": p.stderr[:200].decode("latin1")}))
+        shutil.rmtree(d, ignore_errors=True)
+        res.coverage_extra["configuration_supply_ways_cases"] = ways
         allopts = THR_OPTS + NAME_OPTS + JSON_OPTS + PROG_OPTS
         for _ in range(60 if quick else 1500):
             cfgsel = {k: rng.choice(v) for k, v in CFG.items()}
